@@ -51,6 +51,16 @@ def finish(world, pid, rtxs, rng, ts=None, reward=None, miner=None):
     h = parent.height + 1
     if reward is None:
         reward = ref.subsidy(h)
+        # half of the time the reward also claims the fees of the block's transactions (whenever they are defined: every
+        # input exists in the parent's ledger) -- a block whose reward claims fees takes other paths through the validator
+        if rtxs and rng.random() < 0.5:
+            try:
+                led = world.ledger(pid)
+                fees = sum(ref.tx_fee(t, led) for t in rtxs)
+                if fees > 0:
+                    reward += fees
+            except Exception:
+                pass
     blk = world.draft(pid, rtxs, ts, miner or rng.choice(world.keys)[1], reward=reward)
     return world.mine(blk)
 
